@@ -2980,7 +2980,7 @@ setattr_readonly(
 
     dict = obj->obj_dict;
     if (dict == NULL) {
-        return setattr_python(traito, traitd, obj, name, value);
+        return setattr_trait(traito, traitd, obj, name, value);
     }
 
     if (!PyUnicode_Check(name)) {
@@ -2989,7 +2989,8 @@ setattr_readonly(
 
     result = PyDict_GetItem(dict, name);
     if ((result == NULL) || (result == Undefined)) {
-        rc = setattr_python(traito, traitd, obj, name, value);
+        /* The one defining assignment is an ordinary, notifying one. */
+        rc = setattr_trait(traito, traitd, obj, name, value);
     }
     else {
         rc = set_readonly_error(obj, name);
